@@ -882,6 +882,8 @@ func runProgram(sc *Scenario, e *env, out map[string]interface{}) {
 		case "audit":
 			// C06: which transaction holds the lock of each key right now (after this client's background work went quiet)
 			if g := e.gates[cid]; g != nil {
+				// the quiet window counts from now: a goroutine spawned by the previous step may not have sent its request yet
+				g.lastAct.Store(time.Now().UnixNano())
 				g.waitQuiet(40*time.Millisecond, 3*time.Second)
 			}
 			ca := e.store("c8")
